@@ -489,6 +489,11 @@ Proof.
     + apply B. exact Hx.
 Qed.
 
+Theorem exact_nextb_spec P G hprev hcur : exact_nextb U P G hprev hcur = true <-> ExactNext U P G hprev hcur.
+Proof.
+  unfold exact_nextb, ExactNext. rewrite !andb_true_iff, !subsetb_spec. unfold incl. tauto.
+Qed.
+
 (* ----- C11: eager issue at quiescence ----- *)
 
 Definition EagerG (K : list deps) (st : list N) (h : history) : Prop :=
